@@ -37,7 +37,7 @@ func New(opts ...WriterOption) *Writer {
 	ensureSerializersInitialized()
 	w := &Writer{
 		Storage: fstore.NewFileSystem(),
-		Options: defaultOptions,
+		Options: defaultOptions.copy(),
 	}
 
 	for _, opt := range opts {
